@@ -104,6 +104,12 @@ class Piece:
             ks = 'sincn%s**2' % arg
         elif n == 'gauss':
             ks = 'exp(-pi*%s**2)' % arg
+        elif n == 'sincu':
+            ks = 'sincu%s' % arg
+        elif n == 'trap':
+            ks = 'trap(%s, %s)' % (arg, sfrac(Fraction(kd[1])))
+        elif n == 'sincp':
+            ks = 'sincn%s*sincn(%s*%s)' % (arg, sfrac(Fraction(kd[1])), arg)
         elif n == 'expu':
             al = scq((Fraction(kd[2]), Fraction(kd[3])))
             ks = ('%s**%s*' % (arg, kd[1]) if kd[1] != '0' else '') + 'exp(-%s*%s)*u%s' % (al, arg, arg)
@@ -191,12 +197,23 @@ class Canon:
     def num(self, e, subs):
         """exact Gaussian rational value of a constant sympy expression after substituting pi, dt (and var)"""
         S = self.S
+        # lcapy's trap evaluates itself in floating point as soon as its argument is a number: evaluate it exactly instead
+        e = e.replace(lambda u: u.is_Function and u.func.__name__ == 'trap', lambda u: S.Function('TRAPX')(*u.args))
         r = e.subs(subs)
         # exact evaluation of piecewise atoms at rational arguments
         for _ in range(3):
             rep = {}
             for fn in r.atoms(S.Function):
                 name = fn.func.__name__
+                if name == 'TRAPX' and all(a.is_Rational for a in fn.args):
+                    y = Fraction(int(fn.args[0].p), int(fn.args[0].q))
+                    al = Fraction(int(fn.args[1].p), int(fn.args[1].q))
+                    if al <= 0:
+                        raise CanonFail('trap with alpha <= 0')
+                    foo = abs(y) - Fraction(1, 2)
+                    v = Fraction(0) if foo >= al / 2 else (Fraction(1) if foo <= -al / 2 else Fraction(1, 2) - foo / al)
+                    rep[fn] = S.Rational(v.numerator, v.denominator)
+                    continue
                 if name in ('rect', 'tri', 'Heaviside', 'sign', 'UnitStep') and all(a.is_Rational for a in fn.args[:1]):
                     y = Fraction(int(fn.args[0].p), int(fn.args[0].q))
                     if name == 'rect':
@@ -419,9 +436,9 @@ SCALES = [Fraction(1), Fraction(1), Fraction(1), Fraction(-1), Fraction(2), Frac
 SHIFTS = [Fraction(0), Fraction(0), Fraction(0), Fraction(1), Fraction(-1), Fraction(2), Fraction(1, 2), Fraction(-3, 2)]
 THETAS = [Fraction(1), Fraction(-1), Fraction(2), Fraction(3), Fraction(1, 2), Fraction(-2), Fraction(5)]
 FWD_KINDS = ['one', 'step', 'sgn', 'delta:0', 'abs', 'ramp', 'pw:1', 'pw:2', 'rect', 'tri', 'sinc', 'sinc2', 'gauss',
-             'expu', 'expu', 'expu', 'expabs', 'expabs', 'expuk', 'expuc']
+             'expu', 'expu', 'expu', 'expabs', 'expabs', 'expuk', 'expuc', 'sincu', 'trap']
 INV_KINDS = ['one', 'step', 'step', 'sgn', 'delta:0', 'delta:0', 'inv1', 'inv2', 'abs', 'pw:1', 'rect', 'tri', 'sinc', 'sinc2', 'gauss',
-             'cpole', 'cpole', 'cpole', 'cpoleR', 'cpole2', 'expu']
+             'cpole', 'cpole', 'cpole', 'cpoleR', 'cpole2', 'expu', 'sincu', 'trap']
 
 
 def rand_coef(rng):
@@ -451,6 +468,8 @@ def rand_piece(rng, direction, simple=False):
         reflect = True
     elif k == 'cpole2':
         k = 'cpole:2:%s:0' % fstr(al)
+    elif k == 'trap':
+        k = 'trap:%s' % fstr(rng.choice([Fraction(1, 2), Fraction(1, 3), Fraction(1, 4), Fraction(2, 3)]))
     a = Fraction(1) if simple else rng.choice(SCALES)
     if reflect:
         a = -abs(a)
@@ -473,6 +492,51 @@ def rand_piece(rng, direction, simple=False):
 
 # --------------------------------------------------------------------------- the check
 
+# how each table branch / statement of fourier.py is treated: (substring of the block text) -> status
+BRANCH_STATUS = [
+    ('other == t |', 'model (GENERATED row)+ft_table_forward/inverse'), ('other == t ** 2', 'model (GENERATED row)+ft_table_forward/inverse'),
+    ('other == abs(t)', 'model (GENERATED row)+ft_table_forward/inverse'), ('other == sign(t)', 'model (GENERATED row)+ft_table_forward/inverse'),
+    ('other == Heaviside(t)', 'model (GENERATED row)+ft_table_forward/inverse (F12 fixed)'), ('other == 1 / t', 'model (GENERATED row)+ft_table_forward/inverse'),
+    ('func == Heaviside', 'model (GENERATED row)+ft_table_forward/inverse'),
+    ('func == sincn', 'model (GENERATED row)+ft_table_forward/inverse, anchor_rect_sinc'),
+    ('func == sincu', 'model (GENERATED row)+ft_table_forward/inverse'),
+    ('func == rect', 'model (GENERATED row)+ft_table_forward/inverse, anchor_rect_sinc'),
+    ('func == tri', 'model (GENERATED row)+ft_table_forward/inverse, anchor_tri_sinc2'),
+    ('func == trap', 'model (GENERATED exponent trapAlphaPow)+trap_entry_is_pair / model_trap_refines; finding C12-F12h'),
+    ('alpha', 'model (GENERATED exponent trapAlphaPow)+trap_entry_is_pair'),
+    ('other.args[1].func == exp', 'model (flag expuUsesSf)+ft_param_entries_use_sf, anchor_one_sided_exponential'),
+    ('c0 = foo.coeff', 'model (parametrised entries)'), ('pole_imag', 'model (flag cpoleThreeWay); findings F12c fixed'),
+    ('other.args[1] == -1', 'model (flags cpoleUsesSf, cpoleThreeWay)+ft_param_entries_use_sf'),
+    ('cosh', 'outside the modelled class (1/cosh, 1/sinh, tanh): oracle cannot judge, counted'),
+    ('sinh', 'outside the modelled class (1/cosh, 1/sinh, tanh)'), ('tanh', 'outside the modelled class (1/cosh, 1/sinh, tanh)'),
+    ('similarity_shift', 'model (GENERATED exponents similarity/shiftPhase)+similarity_code_is_theorem, ft_scale_shift'),
+    ('scale != 1 or shift != 0', 'model (GENERATED exponents similarity/shiftPhase)+similarity_code_is_theorem, ft_scale_shift'),
+    ('result *= exp', 'model (GENERATED shiftPhase)+ft_shift'),
+    ('expand_functions', 'route through ramp/rampstep expansion: oracle only'),
+    ('Rational function, need partial fractions', 'error path that triggers the partial-fraction retry of BilateralForwardTransformer.doit'),
+    ('self.sympy(', 'SymPy fall-back: not modelled, judged by the spec oracle'),
+    ('DiracDelta(f - foo', 'model (fingerprint mod_delta)+ft_modulate'), ('Q.subs(f', 'model (fingerprint mod_subs)+ft_modulate'),
+    ('expr * DiracDelta(f) * const', 'model (fingerprint constant)'),
+    ('self.integral(', 'convolution / running integral of undefined functions: outside the modelled class'),
+    ('self.func(', 'undefined functions v(t) -> V(f): outside the modelled class (directed stream undefined-functions, counted)'),
+    ('self.function(', 'undefined functions: outside the modelled class (directed stream undefined-functions, counted)'),
+]
+
+
+def branch_status(label, b):
+    if label == 'fourier.py':
+        for (sub, st) in BRANCH_STATUS:
+            if sub in b['text']:
+                return st
+        fn = b['fn'].split('.')[-1]
+        return {'integral': 'undefined-function convolutions: outside the modelled class', 'function': 'undefined functions: outside the modelled class',
+                'func': 'undefined functions: outside the modelled class', 'rewrite': 'sin/cos -> exponentials: spec (modulation pieces cos/sin)+oracle',
+                'sympy': 'SymPy fall-back wrapper', 'term': ''}.get(fn, '')
+    if label in ('fexpr.py', 'omegaexpr.py', 'normfexpr.py', 'normomegaexpr.py'):
+        return 'model (GENERATED conversion row)+norm_variants, model_conv_refines, conv_cycle_identity'
+    return {'transformer.py': 'term splitting / partial-fraction retry / cache: spec linearity+oracle', 'inverse_fourier.py': 'same routine with is_inverse',
+            'utils.py': 'similarity_shift / factor_const: outputs judged by the oracle'}.get(label, '')
+
 def run(chk, replay=None):
     # ---- 1. translator
     text, info = tx_fourier.generate(common.REPO)
@@ -488,7 +552,7 @@ def run(chk, replay=None):
                                   'shift_phase(sf,pe,qe)': info.get('shift_phase'),
                                   'entries_using_raw_f': [e['test'][:50] for e in info['entries'] if not all(g['use_sf'] for g in e['terms'])]}
     # ---- 2. proofs
-    broken = chk.lean(['Lcapy/Props/C12.lean'],
+    broken = chk.lean(['Lcapy/Props/C12.lean', 'Lcapy/Props/C12Trap.lean'],
                       helper_files=['Lcapy/Proofs/Fourier.lean', 'Lcapy/Proofs/FourierAnchors.lean', 'Lcapy/Spec/Fourier.lean',
                                     'Lcapy/Spec/FourierExec.lean', 'Lcapy/Model/Fourier.lean', 'Lcapy/Generated/FourierTable.lean',
                                     'Lcapy/Driver/C12.lean'],
@@ -525,6 +589,25 @@ def run(chk, replay=None):
     from lcapy import t as lt, f as lf, omega as lomega, F as lF, Omega as lOmega, s as ls
     LV = {'t': lt, 'f': lf, 'omega': lomega, 'F': lF, 'Omega': lOmega}
     can = Canon(S, lcapy)
+    # ---- branch-coverage instrument (from the outside: sys.monitoring line events on the anchored functions only)
+    from translate import branchcov
+    import importlib
+    _fou, _ifou, _trf, _utl, _fx, _ox, _nfx, _nox = [importlib.import_module('lcapy.' + m) for m in (
+        'fourier', 'inverse_fourier', 'transformer', 'utils', 'fexpr', 'omegaexpr', 'normfexpr', 'normomegaexpr')]
+    conv_methods = {'fourier', 'angular_fourier', 'norm_fourier', 'norm_angular_fourier', 'inverse_fourier'}
+
+    def sel(cls):
+        return {cls + '.' + m for m in conv_methods}
+    bcov = branchcov.BranchCov({
+        'fourier.py': (_fou, None),
+        'inverse_fourier.py': (_ifou, None),
+        'transformer.py': (_trf, {'Transformer.transform', 'BilateralForwardTransformer'}),
+        'utils.py': (_utl, {'factor_const', 'scale_shift', 'similarity_shift', 'expand_functions'}),
+        'fexpr.py': (_fx, sel('FourierDomainExpression')),
+        'omegaexpr.py': (_ox, sel('AngularFourierDomainExpression')),
+        'normfexpr.py': (_nfx, sel('NormFourierDomainExpression')),
+        'normomegaexpr.py': (_nox, sel('NormAngularFourierDomainExpression'))}, annotate=branch_status)
+    bcov.start()
     rng = chk.rng
     quick = chk.tier == 'quick'
     n_fwd = 24 if quick else 100
@@ -593,7 +676,7 @@ def run(chk, replay=None):
             return {'kind': what, 'direction': direction, 'variable': dom, 'atom': p.kind.split(':')[0],
                     'a_sign': 'neg' if p.a < 0 else 'pos', 'scaled': abs(p.a) != 1, 'shifted': p.b != 0, 'modulated': p.mod != 'none'}
         # a sum that fails only as a whole is keyed by its most suspicious piece (fixed priority), flagged `in_sum`
-        prio = ['expabs', 'step', 'cpole', 'expu', 'ramp', 'inv1', 'sgn', 'inv2', 'abs', 'pw', 'delta', 'gauss', 'sinc', 'sinc2', 'rect', 'tri', 'one']
+        prio = ['trap', 'sincu', 'sincp', 'expabs', 'step', 'cpole', 'expu', 'ramp', 'inv1', 'sgn', 'inv2', 'abs', 'pw', 'delta', 'gauss', 'sinc', 'sinc2', 'rect', 'tri', 'one']
         p = sorted(pieces, key=lambda q: (prio.index(q.kind.split(':')[0]) if q.kind.split(':')[0] in prio else 99, q.key()))[0]
         k = piece_key(what, direction, dom, [p])
         k['in_sum'] = '+'.join(sorted({q.kind.split(':')[0] for q in pieces}))
@@ -780,7 +863,7 @@ def run(chk, replay=None):
 
     # ---- 3a. every table atom, both directions, plain and with scale/shift/modulation (deterministic part)
     atoms = ['one', 'step', 'sgn', 'abs', 'ramp', 'pw:1', 'pw:2', 'inv1', 'inv2', 'rect', 'tri', 'sinc', 'sinc2', 'gauss', 'delta:0',
-             'expu:0:3:0', 'expu:1:2:0', 'expabs:3', 'cpole:1:3:0', 'cpole:2:3:0']
+             'expu:0:3:0', 'expu:1:2:0', 'expabs:3', 'cpole:1:3:0', 'cpole:2:3:0', 'sincu', 'trap:1/2', 'sincp:1/2']
     for k in atoms:
         for direction in ('fwd', 'inv'):
             variants = ((1, 0, 'none', 0), (2, -1, 'none', 0), (-1, 0, 'exp', 2)) if quick else \
@@ -790,10 +873,10 @@ def run(chk, replay=None):
                     continue
                 if k.startswith('delta') and mod != 'none':
                     continue
-                if direction == 'fwd' and k.startswith(('inv', 'cpole')):
+                if direction == 'fwd' and k.startswith(('inv', 'cpole', 'sincp')):
                     continue          # spectrum-side atoms: outside the property's quantifier in the forward direction
                 p = Piece((1, 0), mod, th, k, a, b)
-                one_case(direction, 'f', [p], 'atom-sweep', with_roundtrip=not k.startswith(('inv', 'cpole')))
+                one_case(direction, 'f', [p], 'atom-sweep', with_roundtrip=not k.startswith(('inv', 'cpole', 'sincp')))
 
     # ---- 3a'. tabulated pulses that are BOTH scaled (a != 1) and shifted (b != 0), both directions: the delay of x(at+b) is b/a
     #           (pure shifts and pure scalings cannot tell b/a from b)
@@ -895,6 +978,53 @@ def run(chk, replay=None):
                                            'conversion of a %s-domain expression to the %s domain uses the wrong substitution' % (d, e))
                     break
 
+    # ---- 3d'. chains of conversions on the real code: X(v1)(v2)...(v0) must be X (conv_chain_identity), every ordered pair of
+    #           variables occurs as a step
+    chains = [['f', 'omega', 'F', 'Omega', 'f'], ['omega', 'f', 'Omega', 'F', 'omega'], ['F', 'omega', 'Omega', 'f', 'F'],
+              ['Omega', 'F', 'f', 'omega', 'Omega'], ['f', 'F', 'omega', 'f'], ['f', 'Omega', 'omega', 'F', 'f'],
+              ['omega', 'Omega', 'f', 'F', 'Omega', 'omega'], ['F', 'f', 'Omega', 'F']]
+    chain_exprs = conv_exprs[:2] if quick else conv_exprs
+    for chain in chains:
+        for p in chain_exprs:
+            d0 = chain[0]
+            text = p.text(d0)
+            toks = term_tokens(p.terms())
+            for (x, y) in zip(chain, chain[1:]):
+                chk.count('conversion-chain-step', '%s->%s' % (x, y))
+            try:
+                Y = mk(text, d0)
+                for v in chain[1:]:
+                    Y = limited(lambda: Y(LV[v]))
+            except Exception as ex:   # noqa
+                chk.case(('chain', tuple(chain), p.key()), False)
+                chk.count('conversion-chain', 'error:' + type(ex).__name__)
+                continue
+            sym = Y.sympy
+            for attempt in range(6):
+                pi0, dt0, x0 = sample_point()
+                try:
+                    ents = can.entries(sym, LV[d0].sympy, x0, pi0, dt0)
+                except Resample:
+                    continue
+                except CanonFail:
+                    chk.case(('chain', tuple(chain), p.key()), False)
+                    chk.count('conversion-chain', 'canon-fail')
+                    break
+                v = drv.ask1('ft.same %s %s | %s | %s' % (fstr(pi0), fstr(x0), toks, ' ; '.join(ents)))
+                if v == 'resample':
+                    continue
+                chk.case(('chain', tuple(chain), p.key()), True)
+                chk.count('conversion-chain', 'identity' if v.startswith('true') else 'differs')
+                if not v.startswith('true'):
+                    counterexamples[0] += 1
+                    # locate the first step that breaks the identity
+                    chk.counterexample({'kind': 'conversion-chain', 'start': d0, 'chain': '->'.join(chain)},
+                                       {'input': {'expression': text, 'chain': chain, 'terms': toks}, 'lcapy': str(sym)[:300],
+                                        'spec': 'a chain of variable conversions that returns to its starting variable is the identity: %s' % v,
+                                        'point': {'pi': fstr(pi0), 'dt': fstr(dt0), 'x0': fstr(x0)}},
+                                       'conversion chain %s does not return the original expression' % '->'.join(chain))
+                break
+
     tick('conversions')
     # ---- 3e. Laplace -> Fourier route for causal, absolutely integrable signals
     n_lap = 6 if quick else 60
@@ -938,6 +1068,8 @@ def run(chk, replay=None):
                 break
 
     tick('laplace-route')
+    bcov.stop()
+    chk.coverage['branch_coverage'] = bcov.table()
     # ---- 4. classification
     chk.coverage['correspondence']['samples_of_disagreement'] = disagreements[:6]
     if broken and counterexamples[0] == 0 and not chk.known_seen:
